@@ -48,3 +48,10 @@ package cryptoutil
 //@   requires privKey != nil && pubKey != nil
 //@   ensures [C05.e2c] ret2 == nil ==> ret0 != nil && ret1 != nil && bytes(ret0) == e2c_priv(skv(privKey)) && bytes(ret1) == e2c_pub(pkv(pubKey)) && ret0 != ret1
 //@   ensures [C05.e2c.type] keytype(privKey) != 1 || keytype(pubKey) != 1 ==> ret2 != nil
+
+//@ func SeedFromEd25519PrivateKey
+//@   for C11, C12
+//@   safety
+//@   requires key != nil
+//@   ensures [C11.seed] ret1 == nil ==> keytype(key) == 1 && blen(skv(key)) == 64 && len(ret0) == 32 && bytes(ret0) == bslice(skv(key), 0, 32)
+//@   ensures [C11.seed.type] keytype(key) != 1 ==> ret1 != nil
